@@ -43,7 +43,7 @@ func (c *StatisticsPage) WriteHTMLTo(w io.Writer) (int64, error) {
 					core.NewSpace(),
 					newPlaceStatistics(c.document, c.placesMap),
 				)),
-				core.NewColumn(core.HalfRow, NewEventStatistics(c.document)),
+				core.NewColumn(core.HalfRow, NewEventStatistics(c.document, c.options.LivingVisibility)),
 			),
 		),
 		c.googleAnalyticsID,
